@@ -58,6 +58,15 @@ pub struct Plan {
 
 const SECTOR: usize = 512;
 const NOTATION_SAMPLES: &str = include_str!("../samples/notation.asn");
+/// 74 one-purpose modules, one per notation of X.680–X.683 that the compiler accepts (subtype
+/// elements, exception markers, value forms, classes / objects / object sets, parameterization,
+/// tags, useful types, deep nesting): valid, compiles with warnings on both backends
+const NOTATION_SAMPLES2: &str = include_str!("../samples/notation2.asn");
+/// 65 modules with reference cycles of every kind the notation allows one to write down: type
+/// aliases, value references, COMPONENTS OF, selection types, INCLUDES, object sets, objects,
+/// classes, parameterized types, object identifiers, imports — syntactically valid, compiles
+/// (with warnings) on both backends
+const CYCLE_SAMPLES: &str = include_str!("../samples/cycles.asn");
 
 fn base_bytes(b: &Base) -> Vec<u8> {
     match b {
@@ -165,7 +174,7 @@ impl Scenario for C08Images {
             // a hand-written valid module using notation the generator does not produce
             // (TIME, REAL, MACRO, CLASS / objects / object sets, selection types, COMPONENTS OF,
             // parameterization, recursion, multi-byte strings): still a VALID base for images
-            Base::Text(NOTATION_SAMPLES.to_string())
+            Base::Text([NOTATION_SAMPLES, NOTATION_SAMPLES2, CYCLE_SAMPLES][(idx as usize / 16) % 3].to_string())
         } else if corpus_turn {
             // systematic walk: every corpus file is a base several times per tier
             Base::Corpus(env.corpus[(idx as usize - idx as usize / 4) % env.corpus.len()].clone())
@@ -225,6 +234,12 @@ impl Scenario for C08Images {
         if exhaustive_prefixes {
             for at in 0..=n {
                 cases.push(Case { image: Image::Truncate { at }, file: at % 5 == 0 });
+            }
+        }
+        if tier == Tier::Thorough && idx % 16 == 15 {
+            // notation samples: a stratified walk over the prefixes, shifted by the run index
+            for j in 0..200usize {
+                cases.push(Case { image: Image::Truncate { at: (j * n / 200 + (idx as usize / 32)) % (n + 1) }, file: j % 5 == 0 });
             }
         }
         // the unmodified base first: a valid source must compile without a crash to begin with
